@@ -38,8 +38,9 @@ def key_chain(ctx, res):
     prefix = prefixes.pop()
     # 1. decorators write TraitsCache + function.__name__[len(prefix):]
     n_dec = 0
+    from ..pyfacts import inline_nested
     for qual in ("cached_property", "property_depends_on"):
-        fn = repo.func(HT, qual)
+        fn = inline_nested(mod, repo.func(HT, qual))
         for a in ast.walk(fn):
             if isinstance(a, ast.Assign) and isinstance(a.value, ast.BinOp) \
                     and norm(a.value.left) == "TraitsCache" \
@@ -198,6 +199,14 @@ def key_chain(ctx, res):
     if not h:
         raise AnalysisError("_create_property_observe_state.handler missing")
     h = h[0]
+    from ..pyfacts import inline_helpers as _inl
+
+    class _Shim0:
+        functions = dict(mod.functions)
+    for f_ in ast.walk(fn):
+        if isinstance(f_, ast.FunctionDef) and f_ is not h and f_ is not fn:
+            _Shim0.functions[f_.name] = f_
+    h = _inl(_Shim0, None, h)
     keydef = [a for a in ast.walk(h) if isinstance(a, ast.Assign)
               and norm(a.value) == "TraitsCache + property_name"]
     if not keydef:
@@ -333,6 +342,29 @@ STEP_OF = {"_init_trait_listeners": "init-listeners",
 MANDATORY = {"init-observers", "post-observers", "traits-init", "inited"}
 
 
+def _setstate_branches(fn):
+    """(versioned, legacy): the statements, in execution order, of the
+    fullest normal path of __setstate__ that (re)installs the listeners and
+    of the fullest one that does not - whatever the shape of the version
+    test (if/else, guard clause with an early return)"""
+    from ..cfg import enumerate_paths
+    from ..pycfg import build_cfg
+    g_ = build_cfg(fn, "__setstate__")
+    best = {True: [], False: []}
+    for path in enumerate_paths(g_, max_paths=5000):
+        if path and g_.nodes[path[-1][0]].id == g_.raise_exit.id:
+            continue
+        nodes = [g_.nodes[nid].ast for nid, lab in path
+                 if g_.nodes[nid].ast is not None
+                 and g_.nodes[nid].kind != "cond"
+                 and isinstance(g_.nodes[nid].ast, ast.stmt)]
+        versioned = any(is_self_call(c, "_init_trait_listeners")
+                        for a_ in nodes for c in ast.walk(a_))
+        if len(nodes) > len(best[versioned]):
+            best[versioned] = nodes
+    return best[True], best[False]
+
+
 def _py_sequence(fn, recv):
     """ordered lifecycle steps called on ``recv`` in a statement list"""
     out = []
@@ -416,16 +448,14 @@ def lifecycle(ctx, res):
     # ---- Python: __setstate__ (versioned branch) ---------------------------
     fn = repo.func(HT, "HasTraits.__setstate__")
     selfn = fn.args.args[0].arg
-    branch = [n for n in fn.body if isinstance(n, ast.If)]
-    if not branch:
+    new_style, legacy = _setstate_branches(fn)
+    if not new_style or not legacy:
         raise AnalysisError("__setstate__: version branch missing")
-    new_style = branch[0].orelse
-    tail = fn.body[fn.body.index(branch[0]) + 1:]
-    seq = _py_sequence(new_style + tail, selfn)
+    seq = _py_sequence(new_style, selfn)
     res.instance("HasTraits.__setstate__", mod.loc(fn),
                  steps=[s for s, _ in seq])
     _check_order(res, "HasTraits.__setstate__", seq, mod.loc(fn))
-    old_style = _py_sequence(branch[0].body + tail, selfn)
+    old_style = _py_sequence(legacy, selfn)
     res.oblige("inited" in [s for s, _ in old_style],
                "HasTraits.__setstate__:legacy-inited", mod.loc(fn),
                "the pre-3.0 branch does not mark the object as inited")
@@ -477,8 +507,10 @@ def lifecycle(ctx, res):
                 if a is None:
                     continue
                 if nd.kind == "cond":
-                    if norm(a).endswith("['post_init']") and lab in ("T", "F"):
-                        pol = (lab == "T")
+                    if lab in ("T", "F") and "post_init" in norm(a):
+                        vt, vf = _post_init_test(a, True), _post_init_test(a, False)
+                        if vt is not None and vf is not None and vt != vf:
+                            pol = True if vt == (lab == "T") else False
                     continue
                 if nd.kind in ("fornext", "foriter"):
                     if nd.kind == "fornext":
@@ -496,6 +528,30 @@ def lifecycle(ctx, res):
     res.floor(4)
 
 
+def _post_init_test(e, p):
+    """truth value of a test over `state['post_init']` when that entry is
+    truthy (p=True) / falsy (p=False); None when not determined"""
+    if isinstance(e, ast.Subscript) and norm(e).endswith("['post_init']"):
+        return p
+    if isinstance(e, ast.Constant) and isinstance(e.value, bool):
+        return e.value
+    if isinstance(e, ast.Call) and norm(e.func) == "bool" and len(e.args) == 1:
+        return _post_init_test(e.args[0], p)
+    if isinstance(e, ast.UnaryOp) and isinstance(e.op, ast.Not):
+        v = _post_init_test(e.operand, p)
+        return None if v is None else not v
+    if isinstance(e, ast.Compare) and len(e.ops) == 1 and isinstance(
+            e.ops[0], (ast.Is, ast.IsNot, ast.Eq, ast.NotEq)):
+        l = _post_init_test(e.left, p)
+        r = _post_init_test(e.comparators[0], p)
+        if l is None or r is None:
+            return None
+        # identity with a bool constant is only meaningful for bool(...)
+        same = (l == r)
+        return same if isinstance(e.ops[0], (ast.Is, ast.Eq)) else not same
+    return None
+
+
 @rule("C14.through-traits", ["C14"],
       "restored and copied state is assigned through the trait machinery "
       "(validated, containers re-wrapped and bound to the new owner)")
@@ -503,8 +559,26 @@ def through_traits(ctx, res):
     repo = get_pyrepo(ctx)
     mod = repo.module(HT)
     fn = repo.func(HT, "HasTraits.__setstate__")
-    branch = [n for n in fn.body if isinstance(n, ast.If)][0]
-    new_style = ast.Module(branch.orelse, [])
+    # the versioned restore path is the one that (re)installs the listeners,
+    # whatever the shape of the version test (if/else, guard clause)
+    from ..cfg import enumerate_paths
+    from ..pycfg import build_cfg
+    g_ = build_cfg(fn, "__setstate__")
+    stmts = []
+    for path in enumerate_paths(g_, max_paths=5000):
+        if path and g_.nodes[path[-1][0]].id == g_.raise_exit.id:
+            continue
+        nodes = [g_.nodes[nid].ast for nid, lab in path
+                 if g_.nodes[nid].ast is not None
+                 and g_.nodes[nid].kind != "cond"]
+        if any(is_self_call(c, "_init_trait_listeners")
+               for a_ in nodes for c in ast.walk(a_)):
+            for a_ in nodes:
+                if isinstance(a_, ast.stmt) and not any(a_ is x for x in stmts):
+                    stmts.append(a_)
+    if not stmts:
+        raise AnalysisError("__setstate__: versioned restore path not found")
+    new_style = ast.Module(stmts, [])
     raw = [n for n in ast.walk(new_style) if isinstance(n, ast.Call)
            and norm(n.func).endswith("__dict__.update")]
     sets = [n for n in ast.walk(new_style) if is_self_call(n, "trait_set")]
